@@ -37,7 +37,8 @@ class Gen:
         self.order = ["g"]
         self.txdef = {}            # tx name -> op (for copies)
         self.n = 0
-        self.opts = dict(p_tx=0.7, max_tx=3, p_copy=0.0, p_same_cb=0.0, p_fork=0.4, p_unusual=0.15, max_height=None)
+        self.opts = dict(p_tx=0.7, max_tx=3, p_copy=0.0, p_same_cb=0.0, p_fork=0.4, p_unusual=0.15, max_height=None,
+                         prefix="", dts=None)
         self.opts.update(opts)
 
     # ------------------------------------------------------------ helpers
@@ -74,7 +75,7 @@ class Gen:
         return parent.target
 
     def choose_dt(self, parent, prefer=None):
-        dt = prefer if prefer is not None else self.r.choice(DTS)
+        dt = prefer if prefer is not None else self.r.choice(self.opts["dts"] or DTS)
         h = parent.height + 1
         if h % self.period == 0:
             need = -(-TARGET_FLOOR * self.timespan // parent.target)      # elapsed needed to stay above the floor
@@ -117,7 +118,7 @@ class Gen:
     def honest_block(self, parent=None, n_tx=None, dt=None):
         p = parent or self.pick_parent()
         self.n += 1
-        label = "b%d" % self.n
+        label = "%sb%d" % (self.opts["prefix"], self.n)
         op = {"label": label, "parent": p.label, "miner": self.r.randrange(N_KEYS), "txs": []}
         op["dt"] = self.choose_dt(p, dt)
         avail = sorted((r, o) for r, o in p.utxo.items() if o[1] is not None)
